@@ -131,7 +131,7 @@ def param_pred(ex, name, arity, axioms):
 def acyclic(ex, E):
     """No directed cycle: there are no u, v with E(u,v) and v ->* u."""
     L = ex.L
-    C = closure(ex, E, "reach")
+    C = ex.closure(E, "reach")
     return L.forall(2, lambda u, v: L.Not(L.And(E(u, v), C(v, u)))), C
 
 
@@ -611,8 +611,21 @@ def call_builtin(ex, name, args, kwargs):
             return ex.call_y0(m, [], {}, self_val=a)
         return VLen(a)
     if name == "sorted":
-        if kwargs.get("key") is not None or kwargs.get("reverse") is not None:
-            raise OutOfSubset("sorted with key/reverse")
+        key = kwargs.get("key")
+        if key is not None:
+            if not (isinstance(key, VFunc) and key.kind == "builtin" and key.target == "str"):
+                raise OutOfSubset("sorted with a key other than str")
+            ex.assumption_notes.add("sorted(key=str) over plain Variables orders like Variable.__lt__ (both by name); "
+                                    "graph nodes are assumed to be plain Variables (star=None)")
+        if kwargs.get("reverse") is not None:
+            raise OutOfSubset("sorted with reverse")
+        a0 = args[0]
+        if isinstance(a0, VTuple) and len(a0.items) == 2 and all(isinstance(i, VNode) for i in a0.items):
+            x, y = a0.items
+            lt0 = L.var_order()
+            if ex.branch(L.Or(lt0(x.t, y.t), x.t == y.t)):
+                return VTuple([x, y])
+            return VTuple([y, x])
         s = ex.as_set(args[0])
         if s.arity != 1:
             raise OutOfSubset("sorted of tuples")
@@ -657,13 +670,13 @@ def call_builtin(ex, name, args, kwargs):
         if not (isinstance(g, VNx) and isinstance(s, VNode)):
             raise OutOfSubset(name)
         ex.require(g.N(s.t), "NetworkXError", short)
-        C = closure(ex, lambda a, b: g.E(a, b), "anc")
+        C = ex.closure(lambda a, b: g.E(a, b), "anc")
         if short == "ancestors":
             return VSet(lambda x: L.And(C(x, s.t), x != s.t, g.N(x)))
         return VSet(lambda x: L.And(C(s.t, x), x != s.t, g.N(x)))
     if name == "networkx.connected_components":
         g = args[0]
-        C = closure(ex, lambda a, b: g.E(a, b), "cc")
+        C = ex.closure(lambda a, b: g.E(a, b), "cc")
         comp = VComp(None, None, None, kind="gen")
         r = L.node("r")
         comp.alts = [([r], g.N(r), VSet(lambda x, r=r: L.And(g.N(x), C(r, x)), kind="set", owned=False))]
@@ -671,13 +684,13 @@ def call_builtin(ex, name, args, kwargs):
     if name == "networkx.is_connected":
         g = args[0]
         ex.require(L.exists(1, lambda x: g.N(x)), "NetworkXPointlessConcept", "is_connected")
-        C = closure(ex, lambda a, b: g.E(a, b), "cc")
+        C = ex.closure(lambda a, b: g.E(a, b), "cc")
         return VBool(L.forall(2, lambda a, b: L.Implies(L.And(g.N(a), g.N(b)), C(a, b))))
     if name == "networkx.has_path":
         g, a, b = args
         ex.require(g.N(a.t), "NodeNotFound", "has_path.source")
         ex.require(g.N(b.t), "NodeNotFound", "has_path.target")
-        C = closure(ex, lambda x, y: g.E(x, y), "path")
+        C = ex.closure(lambda x, y: g.E(x, y), "path")
         return VBool(C(a.t, b.t))
     if name == "networkx.topological_sort":
         g = args[0]
